@@ -181,6 +181,7 @@ static Plan minimise(const Plan &orig, const Target &t) {
 
 // ------------------------------------------------------------------ stats
 struct Stats {
+	uint64_t first_violation_at = 0; // number of runs this worker had executed when it saw its first violation (0 = none)
 	uint64_t runs = 0, derived_runs = 0, steps = 0, violations = 0, stopped = 0, capped = 0, nondet = 0, multi = 0, preempted_runs = 0;
 	uint64_t preemptions = 0, switches = 0;
 	uint64_t fired[FK_NKINDS] = {0};
@@ -211,6 +212,7 @@ static void write_stats(const Stats &st, const char *path, const std::string &pr
 	fprintf(f, "{\"engine\":\"%s\",\"profile\":\"%s\",\"runs\":%llu,\"derived_runs\":%llu,\"steps\":%llu,\"violations\":%llu,\"stopped\":%llu,\"capped\":%llu,\"nondeterministic\":%llu,\"multi_task_runs\":%llu,\"preempted_runs\":%llu,\"preemptions\":%llu,\"switches\":%llu,\"wall_s\":%.3f",
 		E->name(), profile.c_str(), (unsigned long long)st.runs, (unsigned long long)st.derived_runs, (unsigned long long)st.steps, (unsigned long long)st.violations, (unsigned long long)st.stopped, (unsigned long long)st.capped, (unsigned long long)st.nondet, (unsigned long long)st.multi, (unsigned long long)st.preempted_runs, (unsigned long long)st.preemptions, (unsigned long long)st.switches, st.wall);
 	fprintf(f, ",\"distinct_plans\":%zu,\"distinct_schedules\":%zu", st.plan_hashes.size(), st.sched_hashes.size());
+	fprintf(f, ",\"first_violation_at\":%llu", (unsigned long long)st.first_violation_at);
 	fprintf(f, ",\"faults_fired\":{"); for (int k = 0; k < FK_NKINDS; k++) fprintf(f, "%s\"%s\":%llu", k ? "," : "", fault_kind_names[k], (unsigned long long)st.fired[k]); fprintf(f, "}");
 	fprintf(f, ",\"runs_with_fault\":{"); for (int k = 0; k < FK_NKINDS; k++) fprintf(f, "%s\"%s\":%llu", k ? "," : "", fault_kind_names[k], (unsigned long long)st.runs_with_fault[k]); fprintf(f, "}");
 	auto dump = [&](const char *name, const std::map<std::string, uint64_t> &m) { fprintf(f, ",\"%s\":{", name); bool first = true; for (auto &kv : m) { fprintf(f, "%s\"%s\":%llu", first ? "" : ",", jesc(kv.first).c_str(), (unsigned long long)kv.second); first = false; } fprintf(f, "}"); };
@@ -356,6 +358,7 @@ int main(int argc, char **argv) {
 	std::set<std::string> seen_classes;
 	auto handle_violation = [&](const Plan &p, const RunResult &r, uint64_t seed, bool derived) {
 		st.violations++; st.viol_classes[r.v.cls]++;
+		if (!st.first_violation_at) st.first_violation_at = st.runs;
 		if (seen_classes.count(r.v.cls)) return; // one minimised replay per class and worker
 		seen_classes.insert(r.v.cls);
 		nviol++;
